@@ -89,7 +89,17 @@ def parseFloatBits (s : String) : Option Float :=
     (s.toList.foldlM (fun (acc : Nat) c => (hexVal c).map (fun d => acc * 16 + d)) 0).map
       (fun n => Float.ofBits n.toUInt64)
 
-instance : ScalarIO Float := ⟨parseFloatBits, fun _ => none⟩
+def hexDigit (n : Nat) : Char :=
+  if n < 10 then Char.ofNat ('0'.toNat + n) else Char.ofNat ('a'.toNat + (n - 10))
+
+/-- 16 hex digits of the IEEE-754 bits; every NaN prints as `nan` -/
+def printFloatBits (f : Float) : String :=
+  if f.isNaN then "nan"
+  else
+    let b := f.toBits.toNat
+    String.ofList ((List.range 16).map (fun i => hexDigit ((b >>> (4 * (15 - i))) % 16)))
+
+instance : ScalarIO Float := ⟨parseFloatBits, fun f => some (printFloatBits f)⟩
 
 section
 variable {α : Type} [ScalarIO α]
